@@ -293,6 +293,9 @@ def none_flag_vars(g: CFG) -> set[str]:
             for t in a.targets:
                 if isinstance(t, ast.Name):
                     assigned.add(t.id)
+        if n.kind == "stmt" and isinstance(a, ast.AnnAssign) and isinstance(a.value, ast.Constant) and a.value.value is None \
+                and isinstance(a.target, ast.Name):
+            assigned.add(a.target.id)       # `failure: str | None = None`
         if n.kind == "test":
             e = a
             if isinstance(e, ast.Compare) and len(e.ops) == 1 and isinstance(e.ops[0], (ast.Is, ast.IsNot)) and isinstance(e.left, ast.Name) \
